@@ -91,12 +91,13 @@ type SpecDB struct {
 	Lemmas    []*Lemma
 	PureIface map[string]bool // "pkg/path.Iface.Method" or "*.Method"
 	PurePkgs  map[string]bool
+	CodecPkgs map[string]bool
 	Files     []string
 	Assumes   int
 }
 
 func newSpecDB() *SpecDB {
-	return &SpecDB{Contracts: map[string]*Contract{}, Macros: map[string]*SpecMacro{}, UFs: map[string]*UFDecl{}, PureIface: map[string]bool{}, PurePkgs: map[string]bool{}}
+	return &SpecDB{Contracts: map[string]*Contract{}, Macros: map[string]*SpecMacro{}, UFs: map[string]*UFDecl{}, PureIface: map[string]bool{}, PurePkgs: map[string]bool{}, CodecPkgs: map[string]bool{}}
 }
 
 // rewriteImp turns the infix implication a ==> b (lowest precedence, right
@@ -260,7 +261,7 @@ func (db *SpecDB) loadSpecFile(path, pkgPath string) error {
 		lines = append(lines, rawLine{body, i + 1})
 	}
 	// join continuation lines: a line whose first word is not a keyword / directive continues the previous one
-	directives := map[string]bool{"func": true, "extern": true, "spec": true, "uf": true, "axiom": true, "lemma": true, "iface": true, "end": true, "purefn": true, "purepkg": true}
+	directives := map[string]bool{"func": true, "extern": true, "spec": true, "uf": true, "axiom": true, "lemma": true, "iface": true, "end": true, "purefn": true, "purepkg": true, "codecpkg": true}
 	var joined []rawLine
 	for _, l := range lines {
 		w := firstWord(l.text)
@@ -362,6 +363,11 @@ func (db *SpecDB) loadSpecFile(path, pkgPath string) error {
 			f := strings.Fields(rest)
 			if len(f) >= 1 {
 				db.PureIface[f[0]] = true
+			}
+		case "codecpkg":
+			// generated (de)serialiser packages: methods modify only their receiver and the bin.Buffer argument
+			for _, f := range strings.Fields(rest) {
+				db.CodecPkgs[f] = true
 			}
 		case "purepkg":
 			// every function of these packages is effect-free for the code under verification
